@@ -78,14 +78,28 @@ func (gi *gitlabImporter) ImportAll(ctx context.Context, repo *cache.RepoCache, 
 				StateEvents(ctx, gi.client, issue),
 			)
 
+			// Collect first: if one of the three listings failed, importing the
+			// others now would store their events before the older ones of the
+			// failed listing, which the next run can only append after them.
+			var events []Event
+			listingFailed := false
 			for e := range issueEvents {
 				if e, ok := e.(ErrorEvent); ok {
 					out <- core.NewImportError(e.Err, "")
+					listingFailed = true
 					continue
 				}
+				events = append(events, e)
+			}
+			if listingFailed {
+				continue
+			}
+			for _, e := range events {
 				if err := gi.ensureIssueEvent(repo, b, issue, e); err != nil {
 					err := fmt.Errorf("issue event creation: %v", err)
 					out <- core.NewImportError(err, entity.Id(e.ID()))
+					// keep what is stored a chronological prefix
+					break
 				}
 			}
 
